@@ -49,7 +49,8 @@ def run_case(ctx, case):
         if mode == "roundtrip":
             rec.violation("exactly removable knots were refused (insert then remove)", case, observed=r[1])
         if mode == "forced":
-            rec.violation("tolerance=None did not succeed", case, observed=r[1])
+            key = "forced-rational-refit-denominator-changes-sign" if (W is not None and errkind(r) == "ValueError" and errkind(m) == "ValueError") else None
+            rec.violation("tolerance=None did not succeed", case, observed=r[1], finding_key=key)
         return
     if mode in ("absent", "endknot"):
         rec.violation("removal of an absent / end knot succeeded", case, after=ser(after))
@@ -91,6 +92,10 @@ def run_case(ctx, case):
 
 def run(ctx):
     rng = ctx["rng"]
+    # corpus: the witness of the recorded finding (KNOWN_FINDINGS.txt) runs first, every time
+    q = [F(1, 4), F(1, 2), F(3, 4)]
+    run_case(ctx, ser(dict(kind="remove", U=[F(0)] * 3 + q + [F(1)] * 3, P=[(F(x),) for x in (1, 2, 0, 3, 1, 2)],
+                           W=[F(1), F(1, 100), F(1, 100), F(1, 100), F(1, 100), F(1)], mode="forced", nodes=q, tol=None)))
     # corpus: D5 witness (rational insert/remove)
     run_case(ctx, ser(dict(kind="remove", U=[F(0), F(1)], P=[(F(7),)], W=[F(4)], mode="roundtrip", nodes=[F(1, 2)])))
     import props.c04 as c04
